@@ -25,7 +25,7 @@ REAL_VS_STUB = {'real': ['kyupy.circuit: GrowingList, IndexList, Node, Line, Cir
                 'stub': ['none (RefGraph is the reference model, not a replacement)']}
 ASSUMPTIONS = ['trailing unconnected pin slots (None at the end of a pin list) are not part of the compared state: a restore legitimately drops them',
                'substitute is checked by the invariants after the step and the model is re-synchronised from the real object (its rewiring is too rich to predict; its function preservation is C10)']
-EXPECTED_PROBES = ['mismatching_substitute_rejected', 'original_checked_after_edits_on_copy', 'wide_fork', 'double_remove', 'shared_name', 'hole_filled_by_last', 'restore_mid_history', 'copy_mid_history', 'duplicate_name_rejected', 'explicit_pin', 'fork_squeeze', 'eliminate_spliced', 'eliminate_kept_undriven', 'substitute_done', 'substitute_ignored_input']
+EXPECTED_PROBES = ['many_unconnected_nodes', 'mismatching_substitute_rejected', 'original_checked_after_edits_on_copy', 'wide_fork', 'double_remove', 'shared_name', 'hole_filled_by_last', 'restore_mid_history', 'copy_mid_history', 'duplicate_name_rejected', 'explicit_pin', 'fork_squeeze', 'eliminate_spliced', 'eliminate_kept_undriven', 'substitute_done', 'substitute_ignored_input']
 
 KINDS = ['and', 'or', 'nand', 'not', 'buf', 'xor', 'dff', 'latch', 'input', 'output', 'AOI21', 'mux21', 'DFFX1', '__const0__', 'INPUT', 'OUTPUT', 'SDFFLATCHX1', 'Put', 'DLATCH']
 OPS = ['node', 'node', 'node', 'fork', 'line', 'line', 'line', 'line', 'linex', 'linex', 'rmline', 'rmline', 'rmnode', 'gof', 'io', 'ioset', 'elim', 'subst', 'copy', 'restore', 'dup']
@@ -43,6 +43,10 @@ def gen(rng, tier, i):
     if rng.random() < 0.02:      # a clock- or reset-like net: one fork with hundreds of branches (pin numbers beyond 127 and 255)
         pos = rng.randrange(len(ops) + 1)
         ops[pos:pos] = [['wide', rng.choice([130, 257, 300]), 0, 0, 0, 0]] + ([[rng.choice(['restore', 'copy'])] + [rng.randrange(1 << 16) for _ in range(5)]] if rng.random() < 0.7 else [])
+    if rng.random() < 0.02:      # spare / filler cells: many more nodes than lines (node indices beyond 255 in a graph with few lines)
+        pos = rng.randrange(min(len(ops), 4) + 1)
+        ops[pos:pos] = [['many', rng.choice([200, 260, 300]), rng.randrange(1 << 16), 0, 0, 0]]
+        if rng.random() < 0.7: ops.append([rng.choice(['restore', 'copy'])] + [rng.randrange(1 << 16) for _ in range(5)])
     return {'ops': ops}
 
 
@@ -176,6 +180,14 @@ class Exec:
                 m.add_line((fname, True), pin if pin % 2 == 0 else None, (cname, False), pin)
             res.probe('wide_fork')
             did = f'fork with {a} branches'
+        elif kind == 'many':
+            for j in range(a):
+                self.names += 1
+                nk = '__fork__' if (b >> (j % 16)) & 1 and j % 5 == 0 else ['buf', 'FILL1', 'and', 'DECAP'][j % 4]
+                name = f'n{self.names}sp'
+                Node(c, name, nk); m.add_node(name, nk)
+            res.probe('many_unconnected_nodes')
+            did = f'{a} unconnected nodes'
         elif kind == 'rmline':
             if not m.lines: return None
             lids = sorted(m.lines)
